@@ -30,15 +30,20 @@ var (
 	hardPrice0 = []string{"10.0", "1.0"}
 )
 
-func hardGenesis(cdc codec.JSONCodec) []app.GenesisState {
+func hardGenesis(cdc codec.JSONCodec, cfg *histCfg) []app.GenesisState {
 	d := sdk.MustNewDecFromStr
+	irm := hardtypes.NewInterestRateModel(d("0.0"), d("0.0"), d("0.8"), d("0.0"))
+	reserve := d("0.0")
+	if cfg.hasInterest() {
+		irm = hardtypes.NewInterestRateModel(d(cfg.Interest), d("1.0"), d("0.8"), d("5.0"))
+		reserve = d("0.05")
+	}
 	var mms hardtypes.MoneyMarkets
 	for _, dn := range hardDenoms {
 		mms = append(mms, hardtypes.NewMoneyMarket(dn,
 			hardtypes.NewBorrowLimit(false, d("0.0"), d("0.8")),
 			dn+":usd", sdkmath.NewInt(1_000_000),
-			hardtypes.NewInterestRateModel(d("0.0"), d("0.0"), d("0.8"), d("0.0")),
-			d("0.0"), d("0.05")))
+			irm, reserve, d("0.05")))
 	}
 	hgs := hardtypes.NewGenesisState(hardtypes.NewParams(mms, d("0.000001")),
 		hardtypes.DefaultAccumulationTimes, hardtypes.DefaultDeposits, hardtypes.DefaultBorrows,
@@ -229,6 +234,25 @@ func (w *world) genOpHard(r *Rng, s *snap, step int) op {
 		dep, bor := w.hardValues(v)
 		if bor.Sign() > 0 && new(big.Int).Mul(bor, big.NewInt(10)).Cmp(new(big.Int).Mul(dep, big.NewInt(8))) > 0 && r.Chance(1, 4) {
 			return op{Kind: "hard-liquidate", U: v, K: 3, P: 2}
+		}
+	}
+	// under interest a borrow that has seen a block is often repaid in part or topped up: the hook must run
+	// before the interest synchronisation of that very message (a late hook sees drifted shares)
+	if w.cfg.hasInterest() && r.Chance(1, 7) {
+		for try := 0; try < 3; try++ {
+			v, dd := (u+try)%3, (d+try)%2
+			bw, _ := hk.GetBorrow(w.ctx, w.addrs[v])
+			owed := bw.Amount.AmountOf(hardDenoms[dd]).BigInt()
+			if owed.Sign() > 0 {
+				x := new(big.Int).Quo(new(big.Int).Mul(owed, big.NewInt(int64(1+r.Intn(60)))), big.NewInt(100))
+				if x.Sign() <= 0 {
+					x = big.NewInt(1)
+				}
+				if r.Chance(1, 4) {
+					return op{Kind: "hard-borrow", U: v, P: 2 + dd, A: big.NewInt(int64(1 + r.Intn(1000))).String()}
+				}
+				return op{Kind: "hard-repay", U: v, K: v, P: 2 + dd, A: x.String()}
+			}
 		}
 	}
 	switch r.Pick(24, 16, 7, 16, 7, 7, 7, 13, 3) {
